@@ -327,12 +327,37 @@ def main():
     violations = []
     kf_lines = []
     cmds = []
+    standin_done = set()
+
+    def standin(unit, why):
+        """bounded stand-in: the function is outside the verifier's reach as written; run the unit's concrete
+        driver on the real code (a failure there is a violation WITH a failing input; a pass does not turn
+        undecided into proved)"""
+        names = [n for n in (replay_run.UNIT_DRIVERS.get(unit) or []) if n not in standin_done]
+        if not names:
+            return
+        standin_done.update(names)
+        rr = replay_run.run_drivers(REPO, VERIF, names, outdir)
+        cmds.append(rr["cmd"])
+        for n in names:
+            j = rr["results"].get(n)
+            if not j:
+                undecided.append("unit %s: bounded stand-in %s produced no result (%s)" % (unit, n, rr.get("error")))
+                continue
+            cov["bounded"].append({"driver": n, "why": "stand-in for unit %s (%s)" % (unit, why), "cases": j.get("cases"), "distinct_nontrivial": j.get("distinct_nontrivial"), "failures": len(j.get("failures", [])), "bound": "stated in the header of replay/%s.rs" % n.split("::")[0]})
+            if j.get("failures"):
+                violations.append({"obligation": "bounded::%s" % n, "kind": "bounded", "function": n, "label": None, "unit": unit, "clause": "real code vs executable contract on enumerated inputs",
+                                   "message": "bounded check on the real code found a failing input (%s)" % why, "rendered": json.dumps(j["failures"][:3])[:3000], "site_text": "",
+                                   "counterexample": {"driver": n, "failing_input": j["failures"][0], "cases_tried": j.get("cases")}})
+
     try:
         for unit in units:
             try:
                 u = run_unit(unit, outdir, args.tier, seeds=seeds)
             except AnchorLost as e:
                 undecided.append("anchor lost in unit %s: %s" % (unit, e))
+                if not args.no_kani:
+                    standin(unit, "anchor lost")
                 continue
             except TemplateError as e:
                 undecided.append("template error in unit %s: %s" % (unit, e))
@@ -346,20 +371,8 @@ def main():
                 # bounded stand-in: the function is outside the verifier's reach as written; run the unit's
                 # concrete driver on the real code (a failure there is a violation WITH a failing input;
                 # a pass does not turn undecided into proved)
-                names = replay_run.UNIT_DRIVERS.get(unit)
-                if names:
-                    rr = replay_run.run_drivers(REPO, VERIF, names, outdir)
-                    cmds.append(rr["cmd"])
-                    for n in names:
-                        j = rr["results"].get(n)
-                        if not j:
-                            undecided.append("unit %s: bounded stand-in %s produced no result (%s)" % (unit, n, rr.get("error")))
-                            continue
-                        cov["bounded"].append({"driver": n, "why": "stand-in for unit %s (verus could not take the current text)" % unit, "cases": j.get("cases"), "distinct_nontrivial": j.get("distinct_nontrivial"), "failures": len(j.get("failures", [])), "bound": "stated in the header of replay/%s.rs" % n.split("::")[0]})
-                        if j.get("failures"):
-                            violations.append({"obligation": "bounded::%s" % n, "kind": "bounded", "function": n, "label": None, "unit": unit, "clause": "real code vs executable contract on enumerated inputs",
-                                               "message": "bounded check on the real code found a failing input (verus could not process the changed text)", "rendered": json.dumps(j["failures"][:3])[:3000], "site_text": "",
-                                               "counterexample": {"driver": n, "failing_input": j["failures"][0], "cases_tried": j.get("cases")}})
+                if not args.no_kani:
+                    standin(unit, "verus could not take the current text")
             if u["resource"] and not u["fails"]:
                 undecided.append("unit %s: solver resource limit: %s" % (unit, u["resource"][:2]))
             if u["unstable"]:
